@@ -204,16 +204,19 @@ def isParked (t : Th) : Bool := parkedOn t 0 || parkedOn t 1
 
 def parkedList (s : St) (loc : Nat) : List Nat := (List.range s.n).filter (fun j => parkedOn (s.ths j) loc)
 
+/-- where a released waiter resumes (its spin loop) -/
+def wokenPc (c : Cfg) : Pc → Pc
+  | .rParked _ => .rSpin c.spinMax
+  | .wParked _ => .wSpin c.spinMax true
+  | p => p
+
+def wakeOne (c : Cfg) (s : St) (j : Nat) : St :=
+  setTh s j { s.ths j with pc := wokenPc c (s.ths j).pc }
+
 /-- release the listed waiters (they resume in their spin loop) -/
 def wakeAll (c : Cfg) (s : St) : List Nat → St
   | [] => s
-  | j :: rest =>
-      let u := s.ths j
-      let pc' := match u.pc with
-        | .rParked _ => Pc.rSpin c.spinMax
-        | .wParked _ => Pc.wSpin c.spinMax true
-        | p => p
-      wakeAll c (setTh s j { u with pc := pc' }) rest
+  | j :: rest => wakeAll c (wakeOne c s j) rest
 
 def holdsR (t : Th) : Bool :=
   match t.pc with
